@@ -3,3 +3,5 @@ import Driver.CmdFilter
 import Driver.CmdCtl
 import Driver.CmdLog
 import Driver.CmdPipe
+import Driver.CmdPoll
+import Driver.CmdInc
